@@ -707,6 +707,21 @@ func forSpecials() []model.Stmt {
 		out = append(out, model.For{Init: &model.Assign{Name: "i", E: model.Ternary{C: c, A: lit(1), B: lit(4)}}, Cond: model.Ternary{C: model.Binary{Op: "<", L: i, R: lit(6)}, A: model.Lit{V: model.Bool(true)}, B: model.Lit{V: model.Bool(false)}},
 			Post: model.Assign{Name: "i", E: model.Ternary{C: c, A: model.Binary{Op: "+", L: i, R: lit(2)}, B: model.Binary{Op: "+", L: i, R: lit(1)}}}, Body: body})
 	}
+	// the source of an inner loop is a literal built, at some depth, from the variable of the outer loop
+	xv := model.Var{Name: "x"}
+	pv := model.Var{Name: "p"}
+	idx0 := model.Index{X: pv, I: lit(0)}
+	for _, inner := range []model.Expr{
+		model.ArrLit{Elems: []model.Expr{model.ArrLit{Elems: []model.Expr{xv, lit(0)}}}},
+		model.ArrLit{Elems: []model.Expr{model.ArrLit{Elems: []model.Expr{lit(7)}}, model.ArrLit{Elems: []model.Expr{model.Binary{Op: "*", L: xv, R: lit(2)}, xv}}}},
+		model.ArrLit{Elems: []model.Expr{model.ArrLit{Elems: []model.Expr{model.ArrLit{Elems: []model.Expr{xv}}}}}},
+		model.Dot{X: model.ObjLit{Keys: []string{"k"}, Vals: []model.Expr{model.ArrLit{Elems: []model.Expr{model.ArrLit{Elems: []model.Expr{xv}}}}}}, Name: "k"},
+	} {
+		show := []model.Stmt{model.Text{S: "("}, model.Print{E: idx0}, model.Text{S: ")"}}
+		out = append(out, model.Each{Var: "x", Arr: intArr(1, 2, 3), Body: []model.Stmt{model.Each{Var: "p", Arr: inner, Body: show}, model.Text{S: ";"}}})
+		out = append(out, model.For{Init: &model.Assign{Name: "x", E: lit(4)}, Cond: model.Binary{Op: "<", L: xv, R: lit(7)}, Post: model.Print{E: model.Postfix{Op: "++", X: xv}},
+			Body: []model.Stmt{model.Each{Var: "p", Arr: inner, Body: show}, model.Print{E: model.Index{X: model.Index{X: inner, I: lit(0)}, I: lit(0)}}, model.Text{S: ";"}}})
+	}
 	// bounds and counters further apart than 2^63
 	const maxI, half = int64(9223372036854775807), int64(4611686018427387904)
 	for _, cmp := range []string{">", ">="} {
